@@ -8,7 +8,7 @@ use vlib::capsref::accepts;
 use vlib::par::{par_fold, strings_count, strings_nth};
 use vlib::report::{catch, Acc, SubReport, Violation};
 
-const TOKENS: [&str; 13] = ["cap_chown", "CAP_KILL", "all", "bogus", ",", "=", "+", "-", "e", "i", "p", "x", " "];
+const TOKENS: [&str; 16] = ["cap_chown", "CAP_KILL", "all", "bogus", ",", "=", "+", "-", "e", "i", "p", "x", " ", "cap_", "E", "P"];
 
 fn check_text(s: &str, idx: u64, acc: &mut Acc) {
     check_text_in("tokens", s, idx, acc)
@@ -150,7 +150,7 @@ pub fn run(ctx: &Ctx) -> i32 {
         for name in vlib::capsref::CAP_NAMES {
             let mixed: String = name.chars().enumerate().map(|(i, c)| if i % 2 == 0 { c.to_ascii_uppercase() } else { c }).collect();
             // near misses, incl. spellings with characters whose Unicode case mapping is an ASCII letter (long s, dotless i, Kelvin sign, sharp s)
-            let mut misses = vec![name[..name.len() - 1].to_string(), format!("{}x", name), name[4..].to_string(), format!("{}_", name), name.replace('_', "-")];
+            let mut misses = vec![name[..name.len() - 1].to_string(), format!("{}x", name), name[4..].to_string(), format!("{}_", name), name.replace('_', "-"), format!("cap_{}", name), format!("CAP_{}", name), format!("{0}{0}", name), format!("{}_v2", name), format!("{}2", name.to_ascii_uppercase())];
             for (ascii, look) in [('s', "\u{17f}"), ('i', "\u{131}"), ('k', "\u{212a}"), ('S', "\u{17f}"), ('I', "\u{130}")] {
                 for base in [name.to_string(), name.to_ascii_uppercase()] {
                     if let Some(pos) = base.rfind(ascii) {
